@@ -261,6 +261,11 @@ func (s *Sched) RunWith(t T, choose func(runnable []*writer) *writer) bool {
 					if !s.w.Env.Sim.XactActive(w.waitFor) {
 						runnable = append(runnable, w)
 					}
+				} else if w.waitFor <= -(1 << 40) {
+					// waits for a session-level advisory lock: runnable once its holder has released it
+					if !s.w.Env.Sim.SessionLockHeld(w.waitFor) {
+						runnable = append(runnable, w)
+					}
 				} else if s.stmtSeq > w.lastStmt {
 					runnable = append(runnable, w)
 				}
@@ -271,7 +276,12 @@ func (s *Sched) RunWith(t T, choose func(runnable []*writer) *writer) bool {
 			return true
 		}
 		if len(runnable) == 0 {
-			s.w.V("C06", "every remaining writer is blocked and PostgreSQL's deadlock detector has nothing to break: the requests hang\nschedule:\n  %s", strings.Join(s.Trace, "\n  "))
+			// no request of the run will ever be answered: whatever property the run decides, this fails it
+			code := "C06"
+			for c := range s.w.Focus {
+				code = c
+			}
+			s.w.V(code, "every remaining writer is blocked and PostgreSQL's deadlock detector has nothing to break: the requests hang\nschedule:\n  %s", strings.Join(s.Trace, "\n  "))
 			s.abortAll()
 			return false
 		}
